@@ -5,6 +5,8 @@ MODULES = [
     "contracts.c_zip",
     "contracts.c_bool",
     "contracts.c_throttle",
+    "contracts.c_future",
+    "contracts.c_retry",
 ]
 EXPECTED_MIN_OBLIGATIONS = {}
 PROPERTY_ASSUMPTIONS = {}
